@@ -97,6 +97,35 @@ func ciphOpt(s string) string {
 	return "(Some " + ciphTerm(s) + ")"
 }
 
+
+// batcher groups runs into one Coq case (a list of case1 terms): Coq's start-up
+// cost per case file dominates, so fewer, larger files are much faster.
+type batcher struct {
+	c     *core.Ctx
+	n     int
+	terms []string
+	descs []interface{}
+}
+
+func (b *batcher) add(term string, desc interface{}) {
+	b.terms = append(b.terms, term)
+	b.descs = append(b.descs, desc)
+	b.c.Evaluated(1)
+	if len(b.terms) >= b.n {
+		b.flush()
+	}
+}
+func (b *batcher) flush() {
+	if len(b.terms) == 0 {
+		return
+	}
+	b.c.AddCase(core.List(b.terms), map[string]interface{}{"batch": b.descs})
+	b.c.Evaluated(-1)
+	b.terms, b.descs = nil, nil
+}
+
+var bt *batcher
+
 // ---------- (a) negotiateSecurity correspondence --------------------------
 
 type negCase struct {
@@ -144,7 +173,10 @@ func genNegotiate(c *core.Ctx) {
 	lidx := map[string]int{"Rq": 0, "Pf": 1, "Op": 2, "Nv": 3, "Ot": 4}
 	for _, ms := range mshapes {
 		for _, cs := range cshapes {
-			var rows []string
+			table := make([]int, 625)
+			for i := range table {
+				table[i] = -1
+			}
 			m0, k0 := "", ""
 			first := true
 			for _, sa := range seven {
@@ -165,10 +197,6 @@ func genNegotiate(c *core.Ctx) {
 							if first {
 								m0, k0, first = string(neg.NegotiatedAuth), string(neg.NegotiatedCrypto), false
 							}
-							if string(neg.NegotiatedAuth) != m0 || string(neg.NegotiatedCrypto) != k0 {
-								c.AddCase(negTerm(nc), nc)
-								continue
-							}
 							code := 0
 							if err != nil {
 								code |= 1
@@ -183,13 +211,23 @@ func genNegotiate(c *core.Ctx) {
 								code |= 8
 							}
 							li := ((lidx[lvlTerm(nc.SA)]*5+lidx[lvlTerm(nc.CA)])*5+lidx[lvlTerm(nc.SE)])*5 + lidx[lvlTerm(nc.CE)]
-							rows = append(rows, fmt.Sprintf("(%d,%d)", li, code))
+							if string(neg.NegotiatedAuth) != m0 || string(neg.NegotiatedCrypto) != k0 || (table[li] >= 0 && table[li] != code) {
+								// strings of the same class behaving differently: keep the individual case
+								bt.add(negTerm(nc), nc)
+								continue
+							}
+							table[li] = code
 						}
 					}
 				}
 			}
-			c.AddCaseW(fmt.Sprintf("(CNegT %s %s %s %s %s %s %s)", methList(ms.s), methList(ms.c), ciphList(cs.s), ciphList(cs.c),
-				methTerm(m0), ciphOpt(k0), core.List(rows)), negCase{Kind: "neg-table", SM: ms.s, CM: ms.c, SC: cs.s, CC: cs.c}, 100)
+			codes := make([]byte, 625)
+			for i, v := range table {
+				codes[i] = byte(v)
+			}
+			bt.flush()
+			c.AddCaseW(fmt.Sprintf("[(CNegT %s %s %s %s %s %s %s)]", methList(ms.s), methList(ms.c), ciphList(cs.s), ciphList(cs.c),
+				methTerm(m0), ciphOpt(k0), core.Hex(codes)), negCase{Kind: "neg-table", SM: ms.s, CM: ms.c, SC: cs.s, CC: cs.c}, 100)
 		}
 	}
 	// list shapes (orders, duplicates, NONE, unimplemented, unknown names) under a level sample
@@ -203,14 +241,14 @@ func genNegotiate(c *core.Ctx) {
 		for _, sm := range lists {
 			for _, cm := range lists {
 				nc := negCase{"neg", l[0], l[1], l[2], l[3], sm, cm, []string{"AES"}, []string{"AES"}}
-				c.AddCase(negTerm(nc), nc)
+				bt.add(negTerm(nc), nc)
 				c.Count("negotiateSecurity-method-lists")
 			}
 		}
 		for _, sc := range clists {
 			for _, cc := range clists {
 				nc := negCase{"neg", l[0], l[1], l[2], l[3], []string{"FS"}, []string{"FS"}, sc, cc}
-				c.AddCase(negTerm(nc), nc)
+				bt.add(negTerm(nc), nc)
 				c.Count("negotiateSecurity-cipher-lists")
 			}
 		}
@@ -227,7 +265,7 @@ func genNegotiate(c *core.Ctx) {
 		if m != "" {
 			t = "(Some " + methTerm(string(m)) + ")"
 		}
-		c.AddCase(fmt.Sprintf("(CBit %s %s)", core.Z(v), t), map[string]interface{}{"kind": "bit", "v": v})
+		bt.add(fmt.Sprintf("(CBit %s %s)", core.Z(v), t), map[string]interface{}{"kind": "bit", "v": v})
 		c.Count("bitmaskToAuthMethod")
 	}
 	for _, ms := range lists {
@@ -236,12 +274,12 @@ func genNegotiate(c *core.Ctx) {
 			am = append(am, security.AuthMethod(m))
 		}
 		b := security.VerifCreateClientAuthBitmask(am)
-		c.AddCase(fmt.Sprintf("(CMask %s %s)", methList(ms), core.Z(int64(b))), map[string]interface{}{"kind": "mask", "ms": ms})
+		bt.add(fmt.Sprintf("(CMask %s %s)", methList(ms), core.Z(int64(b))), map[string]interface{}{"kind": "mask", "ms": ms})
 		c.Count("createClientAuthBitmask")
 		for _, m := range ms {
 			// round trip used by the retry loop: bit(m) and back
 			bm := security.VerifAuthMethodToBitmask(security.AuthMethod(m))
-			c.AddCase(fmt.Sprintf("(CMask %s %s)", methList([]string{m}), core.Z(int64(bm))), map[string]interface{}{"kind": "mask", "ms": []string{m}})
+			bt.add(fmt.Sprintf("(CMask %s %s)", methList([]string{m}), core.Z(int64(bm))), map[string]interface{}{"kind": "mask", "ms": []string{m}})
 		}
 	}
 }
@@ -650,7 +688,7 @@ func genHonest(c *core.Ctx) error {
 					sp.C.Auth, sp.C.Enc, sp.C.Methods, sp.C.Ciphers, sp.S.Auth, sp.S.Enc, sp.S.Methods, sp.S.Ciphers), sp)
 			}
 		}
-		c.AddCase(hsTerm(sp, o), sp)
+		bt.add(hsTerm(sp, o), sp)
 		switch {
 		case !o.CErr && !o.SErr:
 			c.Count(fmt.Sprintf("hs-ok auth=%v enc=%v", o.SAuth, o.SReal))
@@ -680,11 +718,12 @@ func genHonest(c *core.Ctx) error {
 
 func gen(c *core.Ctx) error {
 	peer.Quiet()
-	c.PerFile = 1500
+	bt = &batcher{c: c, n: 6}
 	genNegotiate(c)
 	if err := genHonest(c); err != nil {
 		return err
 	}
+	bt.flush()
 	c.Rule("every run of real client x real server must obey the decision table written from the property text (fail iff REQUIRED meets NEVER or a REQUIRED feature has no mutual usable method, then explicit denial; else success, authentication runs iff required or preferred-not-forbidden-with-mutual-method, encryption on when required, both ends agree on auth/enc/method/sid/key, a message each way works); every negotiateSecurity/bitmask result and every handshake outcome must equal Model/Negotiate.v")
 	c.Exhaustive(!c.Quick())
 	c.Assume("authentication sub-protocols exercised: CLAIMTOBE (succeeds), PASSWORD (unimplemented, fails); token pre-filter not exercised")
@@ -693,6 +732,17 @@ func gen(c *core.Ctx) error {
 
 func replay(raw json.RawMessage) error {
 	peer.Quiet()
+	var bd struct {
+		Batch []json.RawMessage `json:"batch"`
+	}
+	if json.Unmarshal(raw, &bd) == nil && len(bd.Batch) > 0 {
+		for _, x := range bd.Batch {
+			if err := replay(x); err != nil {
+				return err
+			}
+		}
+		return nil
+	}
 	var sp hsSpec
 	if err := json.Unmarshal(raw, &sp); err != nil {
 		return err
